@@ -480,8 +480,130 @@ def run_neighbors(part, h, w):
                             part.add("nontrivial", ("nb", kind, h, w, y, x, form))
 
 
+def run_scale(part, shape):
+    """Large arrays (more than 256 cells, rows wider than 32): every operator form on distinct variables, every element
+    checked under four assignments (all-low, all-high, alternating, last-cell-only)."""
+    from cspuz import Solver, alldifferent, count_true, fold_and, fold_or
+    from cspuz import cond as cond_fn
+    from cspuz.constraints import then as then_fn
+
+    s = Solver()
+    n = 1
+    for d in shape:
+        n *= d
+    A = s.int_array(shape, -1, 1) if len(shape) == 1 else s.int_array(tuple(shape), -1, 1)
+    B = s.int_array(shape, 0, 2) if len(shape) == 1 else s.int_array(tuple(shape), 0, 2)
+    P = s.bool_array(shape) if len(shape) == 1 else s.bool_array(tuple(shape))
+    Q = s.bool_array(shape) if len(shape) == 1 else s.bool_array(tuple(shape))
+    envs = []
+    for mode in range(4):
+        env = {}
+        for k in range(n):
+            lastonly = k == n - 1
+            env[A.data[k].id] = [-1, 1, (k % 3) - 1, 1 if lastonly else 0][mode]
+            env[B.data[k].id] = [0, 2, k % 3, 2 if lastonly else 1][mode]
+            env[P.data[k].id] = [False, True, k % 2 == 0, lastonly][mode]
+            env[Q.data[k].id] = [False, True, k % 3 == 0, not lastonly][mode]
+        envs.append(env)
+    imp = lambda a, b: (not a) or b  # noqa: E731
+    ite = lambda c, t, f: t if c else f  # noqa: E731
+    forms = [
+        ("A+B", lambda: A + B, [A, B], operator.add), ("2-A", lambda: 2 - A, [2, A], operator.sub), ("-A", lambda: -A, [A], operator.neg),
+        ("A<B", lambda: A < B, [A, B], operator.lt), ("A==1", lambda: A == 1, [A, 1], operator.eq), ("A!=B", lambda: A != B, [A, B], operator.ne),
+        ("P&Q", lambda: P & Q, [P, Q], operator.and_), ("True^P", lambda: True ^ P, [True, P], operator.xor), ("~P", lambda: ~P, [P], operator.not_),
+        ("P|Q", lambda: P | Q, [P, Q], operator.or_), ("P.then(Q)", lambda: P.then(Q), [P, Q], imp), ("then(P,False)", lambda: then_fn(P, False), [P, False], imp),
+        ("P.cond(A,B)", lambda: P.cond(A, B), [P, A, B], ite), ("cond(Q,1,B)", lambda: cond_fn(Q, 1, B), [Q, 1, B], ite),
+    ]
+    for name, fn, ops, py in forms:
+        part.count("evaluations")
+        st, r = attempt(fn)
+        case = {"scale": list(shape), "form": name}
+        if st == "raises":
+            part.violation("scale[%s]:raises-%s" % (name, type(r).__name__), case, {"exception": repr(r)[:200]})
+            continue
+        if tuple(r.shape) != tuple(shape) or len(r.data) != n:
+            part.violation("scale[%s]:wrong-shape" % name, case, {"shape": repr(r.shape)})
+            continue
+        cols = [cells_of(o, n) for o in ops]
+        bad = None
+        for env in envs:
+            for k in range(n):
+                part.count("points")
+                if val(r.data[k], env) != py(*[val(c[k], env) for c in cols]):
+                    bad = k
+                    break
+            if bad is not None:
+                break
+        if bad is not None:
+            part.violation("scale[%s]:wrong-element-value" % name, case, {"element": bad})
+        else:
+            part.add("nontrivial", ("scale", tuple(shape), name))
+    # aggregates over all cells, nested in several ways
+    aggs = [
+        ("count_true(P)", lambda: count_true(P), lambda e: sum(1 for v in P.data if e[v.id])),
+        ("count_true(list,P,[Q])", lambda: count_true(list(P.data[: n // 2]), P.data[n // 2 :], [Q]), lambda e: sum(1 for v in list(P.data) + list(Q.data) if e[v.id])),
+        ("P.count_true()", lambda: P.count_true(), lambda e: sum(1 for v in P.data if e[v.id])),
+        ("fold_or(P)", lambda: fold_or(P), lambda e: any(e[v.id] for v in P.data)),
+        ("P.fold_or()", lambda: P.fold_or(), lambda e: any(e[v.id] for v in P.data)),
+        ("fold_and(P,Q)", lambda: fold_and(P, (q for q in Q)), lambda e: all(e[v.id] for v in list(P.data) + list(Q.data))),
+        ("alldifferent(A)", lambda: alldifferent(A), lambda e: len(set(e[v.id] for v in A.data)) == n),
+    ]
+    for name, fn, py in aggs:
+        part.count("evaluations")
+        st, r = attempt(fn)
+        case = {"scale": list(shape), "form": name}
+        if st == "raises":
+            part.violation("scale[%s]:raises-%s" % (name, type(r).__name__), case, {"exception": repr(r)[:200]})
+            continue
+        for env in envs:
+            part.count("points")
+            if val(r, env) != py(env):
+                part.violation("scale[%s]:wrong-value" % name, case, {})
+                break
+        else:
+            part.add("nontrivial", ("scale", tuple(shape), name))
+    if len(shape) == 2:
+        h, w = shape
+        for (wh, ww, op) in ((2, 2, "and"), (3, 3, "or"), (1, w, "or"), (h, 1, "and"), (h, w, "and"), (h + 1, 1, "or")):
+            part.count("evaluations")
+            case = {"scale": list(shape), "form": "conv2d(%d,%d,%s)" % (wh, ww, op)}
+            st, r = attempt(lambda: P.conv2d(wh, ww, op))
+            if st == "raises":
+                part.violation("scale[conv2d]:raises-%s" % type(r).__name__, case, {"exception": repr(r)[:200]})
+                continue
+            rh, rw = max(0, h - wh + 1), max(0, w - ww + 1)
+            if tuple(r.shape) != (rh, rw):
+                part.violation("scale[conv2d]:wrong-shape", case, {"shape": repr(r.shape)})
+                continue
+            bad = False
+            for env in envs:
+                for y in range(rh):
+                    for x in range(rw):
+                        win = [env[P.data[(y + dy) * w + (x + dx)].id] for dy in range(wh) for dx in range(ww)]
+                        part.count("points")
+                        if val(r.data[y * rw + x], env) is not (all(win) if op == "and" else any(win)):
+                            bad = True
+                            break
+                    if bad:
+                        break
+                if bad:
+                    break
+            if bad:
+                part.violation("scale[conv2d]:wrong-value", case, {})
+        for (y, x) in ((0, 0), (0, w - 1), (h - 1, 0), (h - 1, w - 1), (h // 2, w // 2), (h - 1, w // 2), (0, 33 % w)):
+            part.count("evaluations")
+            exp = sorted(P.data[yy * w + xx].id for yy, xx in ((y - 1, x), (y + 1, x), (y, x - 1), (y, x + 1)) if 0 <= yy < h and 0 <= xx < w)
+            st, r = attempt(lambda: P.four_neighbors(y, x))
+            st2, r2 = attempt(lambda: P.four_neighbor_indices((y, x)))
+            if st != "ok" or sorted(v.id for v in r.data) != exp or st2 != "ok" or sorted(P.data[a * w + b].id for a, b in r2) != exp:
+                part.violation("scale[four_neighbors]:wrong", {"scale": list(shape), "at": [y, x]}, {})
+
+
 def worker(shard, part):
     what = shard[0]
+    if what == "scale":
+        run_scale(part, shard[1])
+        return
     if what == "elementwise":
         run_elementwise(part, shard[1])
         part.sample({"elementwise shape": shard[1]})
@@ -510,6 +632,8 @@ def main(tier, seed, only=None):
             if h * w <= 12:
                 shards.append(("conv2d", h, w))
             shards.append(("neighbors", h, w))
+    for sh in ([(257,), (17, 17), (2, 40), (40, 2)] if tier == "quick" else [(257,), (300,), (17, 17), (2, 40), (40, 2), (33, 33), (1, 300), (300, 1)]):
+        shards.append(("scale", sh))
     if only:
         shards = [s for s in shards if s[0] == only]
     run = harness.Run(
@@ -525,7 +649,8 @@ def main(tier, seed, only=None):
         "then, cond; array and scalar forms).  Helpers count_true/fold_or/fold_and/alldifferent over all leaf tuples of length <= %d "
         "from 5 leaves x ~20 nestings (varargs, list, tuple, generator, nested, 1-D/2-D arrays mixed with literals).  conv2d on all "
         "shapes <= %dx%d x windows 1..3 x 1..3 x and/or under all 2^(hw) assignments; four_neighbors / four_neighbor_indices at every "
-        "coordinate in both call forms.  Non-trivial = distinct (form, case) whose result was fully evaluated." % (3 if tier == "quick" else 4, top, top),
+        "coordinate in both call forms.  Scale family (not exhaustive): arrays of 257 cells, 17x17, 2x40, 40x2 (thorough 33x33, 1x300) over distinct "
+        "variables, every operator form and aggregate checked on every element under four assignments.  Non-trivial = distinct (form, case) whose result was fully evaluated." % (3 if tier == "quick" else 4, top, top),
     )
     run.assumptions = [
         "== / != across kinds and bare Python bool literals in integer positions are not judged (Python's comparison fallback and bool being an int make the property's wording silent)",
@@ -538,6 +663,10 @@ def main(tier, seed, only=None):
 
 def replay(case):
     part = harness.Partial()
+    if "scale" in case:
+        run_scale(part, tuple(case["scale"]))
+        mine = [v for v in part.violations if v.case.get("form") == case.get("form") or v.case.get("at") == case.get("at")]
+        return (not mine), (mine[0].detail if mine else "agrees")
     if "helper" in case:
         run_helpers(part, len(case["leaves"]))
     elif "conv2d" in case:
